@@ -105,6 +105,7 @@ const (
 	upInconsistent // lookupd /nodes: topics and tombstones of different lengths
 	upEmptyBody
 	upStallBody // answers the status line, headers and the beginning of the body, then nothing more (connection stays open)
+	upNullEntries // well-formed JSON whose arrays contain null where an object is expected
 )
 
 type aWorld struct {
@@ -117,6 +118,8 @@ type aWorld struct {
 	log   []stubReq
 	curLookupPath string // which lookupd endpoint the view under test uses
 	stalled       []net.Conn
+	notifyMode    int // 0,4 none; 1 healthy endpoint; 2 refused; 3 answers 500
+	notified      int
 }
 
 func genACfg(rc *RunCtx) ACfg {
@@ -143,7 +146,7 @@ func genAOps(rc *RunCtx, c ACfg) []Op {
 	var ops []Op
 	add := func(o Op) { o.Uid = len(ops); ops = append(ops, o) }
 	for len(ops) < n {
-		switch r.Weighted([]int{30, 30, 14, 12}) {
+		switch r.Weighted([]int{30, 30, 14, 12, 4}) {
 		case 0: // mutating request with some identity
 			add(Op{Kind: "mutate", A: int64(r.Intn(12)), B: int64(r.Intn(10)), C: int64(r.Intn(6)), D: int64(r.Intn(6))})
 		case 1: // read view compared with the reference aggregation
@@ -152,6 +155,8 @@ func genAOps(rc *RunCtx, c ACfg) []Op {
 			add(Op{Kind: "upmode", A: int64(r.Intn(8)), B: int64(r.Pick(upOK, upOK, upRefuse, upBlackhole, upReset, up500, upMalformed, upInconsistent, upEmptyBody, upStallBody))})
 		case 3: // /config from some source address
 			add(Op{Kind: "config", A: int64(r.Intn(8)), B: int64(r.Intn(3)), C: int64(r.Pick(0, 0, 1, 2, 3, 4))})
+		case 4: // an upstream whose (well-formed) JSON arrays contain null entries
+			add(Op{Kind: "nullview", A: int64(r.Intn(8)), B: int64(r.Intn(6)), C: int64(r.Intn(6))})
 		}
 	}
 	return ops
@@ -308,6 +313,28 @@ func (w *aWorld) serve(n *stubNode, rw http.ResponseWriter, req *http.Request) {
 				sc.Reset()
 			} else {
 				c.Close()
+			}
+		}
+		return
+	case upNullEntries:
+		rw.Header().Set("Content-Type", "application/json")
+		if n.kind == "nsqd" {
+			switch req.URL.Path {
+			case "/stats":
+				rw.Write([]byte(`{"version":"1.3.0","health":"OK","start_time":1767225600,"topics":[null,{"topic_name":"orders","channels":[null,{"channel_name":"archive","clients":[null]}]}],"producers":[null]}`))
+			default:
+				rw.Write([]byte(`{"version":"1.3.0","broadcast_address":"127.0.0.1","hostname":"127.0.0.1","http_port":4151,"tcp_port":6000}`))
+			}
+		} else {
+			switch req.URL.Path {
+			case "/nodes", "/lookup":
+				rw.Write([]byte(`{"channels":[null],"producers":[null]}`))
+			case "/topics":
+				rw.Write([]byte(`{"topics":[null]}`))
+			case "/channels":
+				rw.Write([]byte(`{"channels":[null]}`))
+			default:
+				rw.Write([]byte(`{}`))
 			}
 		}
 		return
@@ -521,6 +548,29 @@ func adminWorld(rc *RunCtx) {
 	o.AllowConfigFromCIDR = c.CIDR
 	o.HTTPClientConnectTimeout = 2 * time.Second
 	o.HTTPClientRequestTimeout = 5 * time.Second
+	// --notification-http-endpoint: every admin action is POSTed there; the endpoint is one more upstream
+	// that may be healthy, refuse connections or answer errors - nsqadmin must live with all of it
+	switch w.notifyMode = int(NewPRNG(c.Seed2 ^ 0x707).Intn(5)); w.notifyMode {
+	case 1, 2, 3:
+		o.NotificationHTTPEndpoint = "http://127.0.0.1:4999/notify"
+		if w.notifyMode != 2 { // 2: nobody listens (connection refused)
+			ln, err := rc.Net.Listen("tcp", "127.0.0.1:4999")
+			if err != nil {
+				panic("harness: " + err.Error())
+			}
+			mode := w.notifyMode
+			srv := &http.Server{Handler: http.HandlerFunc(func(rw http.ResponseWriter, req *http.Request) {
+				w.mu.Lock()
+				w.notified++
+				w.mu.Unlock()
+				if mode == 3 {
+					rw.WriteHeader(500)
+				}
+			})}
+			go srv.Serve(ln)
+			rc.Defer(func() { srv.Close(); ln.Close() })
+		}
+	}
 	a, err := nsqadmin.New(o)
 	if err != nil {
 		rc.Violate(rc.Prop, "startup-failed", "nsqadmin.New: %v", err)
@@ -559,6 +609,8 @@ func adminWorld(rc *RunCtx) {
 			w.setMode(n, int(op.B))
 		case "config":
 			w.opConfig(op)
+		case "nullview":
+			w.opNullView(op)
 		}
 		synctest.Wait()
 		if rc.Failed() {
@@ -601,7 +653,7 @@ func (w *aWorld) setMode(n *stubNode, mode int) {
 		}
 	}
 	if mode != upOK {
-		w.rc.Fault([]string{"", "upstream_refuse", "upstream_blackhole", "upstream_reset_mid_body", "upstream_500", "upstream_malformed_json", "upstream_inconsistent_arrays", "upstream_empty_body", "upstream_stalls_mid_body"}[mode])
+		w.rc.Fault([]string{"", "upstream_refuse", "upstream_blackhole", "upstream_reset_mid_body", "upstream_500", "upstream_malformed_json", "upstream_inconsistent_arrays", "upstream_empty_body", "upstream_stalls_mid_body", "upstream_null_entries"}[mode])
 	}
 	w.rc.Logf("%s%d mode %d", n.kind, n.idx, mode)
 }
@@ -1386,4 +1438,25 @@ func (w *aWorld) viewStatus(what string, resp HTTPResp, srcOK, srcBad int, v int
 		return false
 	}
 	return true
+}
+
+// opNullView: one upstream answers well-formed JSON whose arrays contain null entries (inconsistent
+// upstream JSON). What the views show then is not specified; nsqadmin must answer every view and stay up.
+func (w *aWorld) opNullView(op Op) {
+	rc := w.rc
+	n := w.nodes[int(uint64(op.A)%uint64(len(w.nodes)))]
+	old := n.mode
+	w.setMode(n, upNullEntries)
+	t := aTopics[int(op.B)%len(aTopics)]
+	ch := aChans[int(op.C)%len(aChans)]
+	for _, path := range []string{"/api/topics", "/api/nodes", "/api/topics/" + url.PathEscape(t), "/api/topics/" + url.PathEscape(t) + "/" + url.PathEscape(ch), "/api/counter", "/api/nodes/127.0.0.1:4151"} {
+		resp := httpDo(rc, "GET", w.http, path, nil, map[string]string{w.cfg.ACLHeader: "alice"}, nil, 120*time.Second)
+		rc.Logf("null-entry view %s -> %d %q err=%v", path, resp.Status, trunc(resp.Body, 80), resp.Err)
+		if resp.Err != nil {
+			w.violate("C18", "no-response", "%s with null entries in the answers of %s%d: %v", path, n.kind, n.idx, resp.Err)
+			break
+		}
+	}
+	rc.Probe("views_with_null_entries")
+	w.setMode(n, old)
 }
